@@ -185,8 +185,24 @@ class ModelMixin3:
             st.put(recv.sym, replace(le, kind='accum', items=tuple(items), owned=tuple(owned), lo=min(le.lo + 1, 2), hi=None if self._in_loop(st) else hi, distinct=distinct))
             return [(NoneV(), st)]
         if name == 'extend':
-            st.put(recv.sym, replace(le, kind='accum', hi=None))
-            self.note('list.extend modelled loosely')
+            other = args[0] if args else None
+            items, owned = list(le.items), list(le.owned) if len(le.owned) == len(le.items) else [()] * len(le.items)
+            ordered = le.ordered
+            if isinstance(other, Ref) and other.kind == 'list':
+                oe: ListE = st.get(other.sym)
+                ordered = ordered and oe.ordered
+                have = {repr(self._vk(x, st)) for x in items}
+                for j, t in enumerate(oe.items):
+                    if repr(self._vk(t, st)) not in have:
+                        items.append(t)
+                        owned.append(oe.owned[j] if j < len(oe.owned) else ())
+                        have.add(repr(self._vk(t, st)))
+                stages = tuple(le.stages) + tuple(x for x in oe.stages if x not in le.stages)
+            else:
+                self.note('list.extend with a non-list argument')
+                stages = le.stages
+            st.put(recv.sym, replace(le, kind='accum', hi=None, items=tuple(items), owned=tuple(owned), ordered=ordered, stages=stages))
+            self.hook('list-append', st, node, list=recv, value=other)
             return [(NoneV(), st)]
         if name == 'index':
             src = le
